@@ -81,6 +81,25 @@ func init() {
 		// os / runtime / time
 		"os.Exit":   func(fr *frame, a []value) value { panic(exitPanic{int(asInt64(a[0])), "os.Exit"}) },
 		"os.Getenv": extGetenv,
+		// the process's standard streams are not modelled (package os is not initialised):
+		// whatever the target prints is discarded, as if written successfully
+		"(*os.File).Write": func(fr *frame, a []value) value {
+			n := 0
+			if b, ok := a[1].([]value); ok {
+				n = len(b)
+			}
+			return tuple{n, iface{}}
+		},
+		"(*os.File).WriteString": func(fr *frame, a []value) value {
+			n := 0
+			switch x := a[1].(type) {
+			case string:
+				n = len(x)
+			case sstr:
+				n = len(x.b)
+			}
+			return tuple{n, iface{}}
+		},
 		"os.LookupEnv": func(fr *frame, a []value) value {
 			return tuple{extGetenv(fr, a), false}
 		},
